@@ -18,8 +18,8 @@ RULE  = ("one case = one real Multiprocessor.filter call in a fresh process: (n_
 PLAN  = {"quick":    {"shards": 8, "parallel": 5, "cases": 120,  "timeout": 900},
          "thorough": {"shards": 8, "parallel": 5, "cases": 3000, "timeout": 6000}}
 REQUIRED = ["oracle.exactly-once", "oracle.pid-quota", "oracle.exception-contract", "oracle.abandon", "observed.restarts",
-            "observed.multi-worker-runs", "perturb.line-events", "oracle.reuse-same-object"]
-ASSUMPTIONS = ["outputs are never None (None is the documented poison pill)",
+            "observed.multi-worker-runs", "perturb.line-events", "oracle.reuse-same-object", "oracle.none-outputs", "oracle.exception-hard-to-transport"]
+ASSUMPTIONS = ["items and outputs can be pickled (an output that cannot travel between processes is outside the quantifier); None is a legal item and a legal output",
                "CobaMultiprocessor deliberately turns the RuntimeError family into coba_exit (spawn bootstrapping guard): through it such an exception may reach the caller as CobaExit carrying the message", "order of outputs is not asserted (multiset)",
                "a hang is a violation only when the logical deadlock state is established (all workers dead, loader and callback "
                "threads finished, consumer blocked in queue.get); any other watchdog firing is inconclusive",
@@ -71,9 +71,10 @@ def gen_case(rng, idx=0):
         kmap = {u: kmap.get(u, 1) for u in range(items)}
     reuse = rng.choice([2, 3, 5, 7]) if (abandon is None and rng.random() < .35) else 0
     none_items = [rng.choice([0, 0, items // 2, items - 1])] if (items > 0 and rng.random() < .2) else []     # one item is None
-    return {"none_items": none_items, "reuse": reuse, "finish_during_replacement": fdr, "tail_delay_ms": tail, "n": n, "m": m, "n_items": items, "items_class": base, "via": via, "mode": mode, "pattern": pat, "kmap": kmap,
+    none_outputs = sorted({rng.randrange(items) for _ in range(rng.choice([1, 1, 2]))} - set(raising)) if (items > 0 and abandon is None and rng.random() < .2) else []   # outputs that are None
+    return {"none_outputs": none_outputs, "none_items": none_items, "reuse": reuse, "finish_during_replacement": fdr, "tail_delay_ms": tail, "n": n, "m": m, "n_items": items, "items_class": base, "via": via, "mode": mode, "pattern": pat, "kmap": kmap,
             "raising_kind": rkind, "raising": raising, "abandon": abandon, "perturb": perturb, "perturb_seed": rng.randrange(1 << 30),
-            "worker_jitter_ms": wj, "loader_jitter_ms": lj, "consumer_jitter_ms": cj, "watchdog_s": 45, "exc_type": rng.choice(["ValueError", "KeyError", "InjectedFailure", "AssertionError", "EOFError", "TypeError", "RuntimeError", "NotImplementedError", "RecursionError", "OSError", "LookupError"])}   # (StopIteration is excluded: Python itself turns it into RuntimeError inside generators, PEP 479)
+            "worker_jitter_ms": wj, "loader_jitter_ms": lj, "consumer_jitter_ms": cj, "watchdog_s": 45, "exc_type": rng.choice(["ValueError", "KeyError", "InjectedFailure", "AssertionError", "EOFError", "TypeError", "RuntimeError", "NotImplementedError", "RecursionError", "OSError", "LookupError", "BigValueError", "TwoArgError"])}   # (StopIteration is excluded: Python itself turns it into RuntimeError inside generators, PEP 479)
 
 def run_case(spec, workdir):
     side = os.path.join(workdir, "side.log")
@@ -130,14 +131,18 @@ def judge(spec, res, processed):
     expected = Counter()
     for uid in range(spec["n_items"]):
         if uid in spec["raising"]: continue
+        if uid in (spec.get("none_outputs") or []):
+            expected[("None", -1)] += 1
+            if spec["mode"] == "value": continue
         for j in range(1 if spec["mode"] == "value" else kmap[uid]): expected[(uid, j)] += 1
+    if spec.get("none_outputs"): obs["none_outputs"] = 1
     gotc = Counter((g[0], g[1]) for g in got)
     proc_by_pid = {}
     for uid, pid in processed: proc_by_pid.setdefault(pid, []).append(uid)
     obs["pids"] = len(proc_by_pid)
     obs["restarts"] = max(0, sum(1 for e in res["events"] if e[0] == "start") - n) if multi else 0
     # ---- nothing bogus, nothing duplicated (holds in every scenario)
-    dup = {k: c for k, c in gotc.items() if c > 1}
+    dup = {k: c for k, c in gotc.items() if c > max(1, expected.get(k, 0))}      # (several items may each have the output None)
     if dup: v.append((f"duplicated-output/{feat}", f"outputs received more than once: {sorted(dup)[:5]}"))
     bogus = [k for k in gotc if k not in expected]
     if bogus: v.append((f"unexpected-output/{feat}", f"outputs that the wrapped filter never produces: {bogus[:5]}"))
@@ -155,6 +160,13 @@ def judge(spec, res, processed):
         ok_type = spec.get("exc_type", "ValueError")
         if r is None:
             v.append((f"exception-swallowed/{feat}", f"filter raises for items {spec['raising'][:5]} but the call returned normally with {len(got)} outputs"))
+        elif ok_type == "BigValueError":
+            if r["type"] != "ValueError" or not any(r["msg"].startswith(m + "|") for m in ok_msgs):
+                v.append((f"wrong-exception/{feat}", f"expected ValueError(boom-<uid>|xxx...) got {str(r)[:200]}"))
+        elif ok_type == "TwoArgError":
+            # it cannot be rebuilt in the parent: either the class itself or an error carrying its type and message reaches the caller
+            if not any(m in r["msg"] for m in ok_msgs):
+                v.append((f"wrong-exception/{feat}", f"expected an error carrying TwoArgError boom-<uid> got {str(r)[:200]}"))
         elif spec["via"] == "coba" and ok_type in ("RuntimeError", "NotImplementedError", "RecursionError"):
             # CobaMultiprocessor turns the RuntimeError family into coba_exit(message): either form reaches the caller
             if r["type"] not in (ok_type, "CobaExit") or not any(m in r["msg"] for m in ok_msgs):
@@ -206,6 +218,8 @@ def check_case(spec, ctx=None, workdir=None):
                 if spec["raising"]: ctx.count("oracle.exception-contract")
                 if spec["abandon"] is not None: ctx.count("oracle.abandon")
                 if obs.get("reuse"): ctx.count("oracle.reuse-same-object")
+                if obs.get("none_outputs"): ctx.count("oracle.none-outputs")
+                if spec["raising"] and spec.get("exc_type") in ("BigValueError", "TwoArgError") and multi: ctx.count("oracle.exception-hard-to-transport")
                 if obs.get("restarts", 0) > 0: ctx.count("observed.restarts", obs["restarts"])
                 if obs.get("pids", 0) > 1: ctx.count("observed.multi-worker-runs")
                 st = res.get("stats", {})
